@@ -37,6 +37,39 @@ def encUnmet : Option String → Flow
 theorem encUnmet_none : encUnmet Option.none = .next [.bool false] := rfl
 theorem encUnmet_some (ch : String) : encUnmet (some ch) = .ret (.list [.bool false, .str ch]) := rfl
 
+/-! ### the loop and what surrounds it -/
+
+/-- the loop over the obligations: the first unmet one returns its challenge, else the statements after the loop -/
+theorem forFlow_encUnmet (f : PyVal → Option String) (body : PyVal → Flow) (rest : PyVal) (h : ∀ ob, body ob = encUnmet (f ob))
+    (obls : List PyVal) :
+    forFlow body rest obls =
+      (match obls.findSome? f with
+       | some ch => .list [.bool false, .str ch]
+       | Option.none => rest) := by
+  induction obls with
+  | nil => rfl
+  | cons ob obls ih =>
+    simp only [forFlow, h ob, List.findSome?_cons]
+    cases f ob with
+    | some ch => rfl
+    | none => simp only [encUnmet]; exact ih
+
+/-- the current effect when the legacy key `decision` is a string -/
+def effectOf (label : String) : String := if label == "permit" then "permit" else "deny"
+
+theorem effectOf_permit (label : String) : (effectOf label == "permit") = (label == "permit") := by
+  unfold effectOf
+  by_cases h : label = "permit"
+  · subst h; rfl
+  · have h' : (label == "permit") = false := by simpa using h
+    rw [h']; rfl
+
+/-- the statements before the loop, for a raw decision whose `decision` is the string `label`; `obligations` = the value of
+    `decision.get("obligations") or []` -/
+def prologueModel (label : String) (obligations : PyVal) : Flow :=
+  if obligations.truthy then .next [obligations, .str (effectOf label), .bool (effectOf label == "permit")]
+  else .ret (.list [.bool (label == "permit"), PyVal.none])
+
 /-! ### the model in the shape of the source -/
 
 /-- `attrs = (ob or {}).get("attrs") or {}; if not isinstance(attrs, dict): attrs = {}` -/
